@@ -287,6 +287,16 @@ func stressOps(shared *spec.Swagger, sharedCache spec.ResolutionCache) []func() 
 			b, _ := json.Marshal(v)
 			return string(b), nil
 		},
+		func() (string, error) { // a schema referring to whole built-in meta-schema documents
+			var s spec.Schema
+			_ = json.Unmarshal([]byte(`{"type":"object","properties":{"m":{"$ref":"http://json-schema.org/draft-04/schema#"}}}`), &s)
+			if err := spec.ExpandSchemaWithBasePath(&s, nil, opts()); err != nil {
+				return "", err
+			}
+			// the meta-schema is cyclic: compare a deterministic part only
+			b, _ := json.Marshal(s.Properties["m"].Properties["maxLength"])
+			return string(b), nil
+		},
 		func() (string, error) { // built-in meta-schema through the package cache
 			ref := spec.MustCreateRef("http://json-schema.org/draft-04/schema#/definitions/positiveInteger")
 			s, err := spec.ResolveRefWithBase(nil, &ref, opts())
